@@ -483,8 +483,41 @@ def reachable_calls(db, fi, depth=4):
             if g is not None:
                 out.add(g.name)
                 rec(g, d - 1)
+        # a prysm function handed on as a value (map(helper, ...), functools.partial(helper, ...), a dispatch table entry) is reached too
+        for n in walk_no_nested(f.node):
+            if isinstance(n, ast.Name) and isinstance(n.ctx, ast.Load):
+                r = db.resolve_name(f.module, n.id)
+                if hasattr(r, 'qual') and isinstance(getattr(r, 'node', None), ast.FunctionDef) and r.qual not in seen:
+                    out.add(r.name)
+                    rec(r, d - 1)
     rec(fi, depth)
     return out
+
+
+def executed_calls(db, fi, max_paths=200):
+    """Names of the prysm functions that interpreting `fi` reaches on some path (through properties, getattr by name, closures, bound
+    helpers -- whatever the interpreter follows), with every argument unknown and, for a method, an object whose attributes are
+    unknown.  A second source next to `reachable_calls` (which reads names off the syntax tree)."""
+    from ..core.interp import Interp, Domain, Obj, Unknown, Const
+    seen = set()
+
+    class D(Domain):
+        def call_prysm(self, f, args, kwargs, node):
+            seen.add(f.name)
+            return None
+
+        def getattr(self, v, name, node):
+            if isinstance(v, Obj) and name.startswith('_') and not name.startswith('__'):
+                return Const(None)            # a cache slot that has not been filled yet
+            return None
+    it = Interp(db, D())
+    it.MAX_PATHS = max_paths
+    so = (lambda: Obj(fi.cls)) if fi.cls is not None and fi.params and fi.params[0] == 'self' else None
+    try:
+        it.run(fi, kwargs=lambda: {p_: Unknown('argument') for p_ in fi.params if p_ not in ('self', 'cls')}, self_obj=so)
+    except AnalysisError:
+        pass
+    return seen
 
 
 def bind_call(fi, args, kwargs):
